@@ -4,18 +4,6 @@ open Datatypes
 
 module N =
  struct
-  (** val succ_double : coq_N -> coq_N **)
-
-  let succ_double = function
-  | N0 -> Npos Coq_xH
-  | Npos p -> Npos (Coq_xI p)
-
-  (** val double : coq_N -> coq_N **)
-
-  let double = function
-  | N0 -> N0
-  | Npos p -> Npos (Coq_xO p)
-
   (** val add : coq_N -> coq_N -> coq_N **)
 
   let add n m =
@@ -89,38 +77,4 @@ module N =
     match compare n n' with
     | Gt -> n'
     | _ -> n
-
-  (** val pos_div_eucl : positive -> coq_N -> coq_N * coq_N **)
-
-  let rec pos_div_eucl a b =
-    match a with
-    | Coq_xI a' ->
-      let (q, r) = pos_div_eucl a' b in
-      let r' = succ_double r in
-      if leb b r' then ((succ_double q), (sub r' b)) else ((double q), r')
-    | Coq_xO a' ->
-      let (q, r) = pos_div_eucl a' b in
-      let r' = double r in
-      if leb b r' then ((succ_double q), (sub r' b)) else ((double q), r')
-    | Coq_xH ->
-      (match b with
-       | N0 -> (N0, (Npos Coq_xH))
-       | Npos p ->
-         (match p with
-          | Coq_xH -> ((Npos Coq_xH), N0)
-          | _ -> (N0, (Npos Coq_xH))))
-
-  (** val div_eucl : coq_N -> coq_N -> coq_N * coq_N **)
-
-  let div_eucl a b =
-    match a with
-    | N0 -> (N0, N0)
-    | Npos na -> (match b with
-                  | N0 -> (N0, a)
-                  | Npos _ -> pos_div_eucl na b)
-
-  (** val modulo : coq_N -> coq_N -> coq_N **)
-
-  let modulo a b =
-    snd (div_eucl a b)
  end
